@@ -275,5 +275,5 @@ func run(rp *explore.Report, tier string) {
 
 func init() {
 	reg.Register(&reg.Harness{Property: "C10", Name: "c10/sqlbatch", Level: "model_checking", Bounds: [2]int{1, 2}, Run: run, Item: parseItem,
-		Rule: "3 table contents (duplicates + NULLs, single row, empty) x all pairs and a grid of triples of 31 queries (Query/QueryRow; filters on id, nullable column, string column, int32 column, two columns, empty, nil; each value in the Go representations int / int64 / int32 / *int64 / named string / nil / typed nil pointer; a second table) run concurrently under one batch.WithBatching context over the real sqlgen.DB and an in-memory SQL driver with three-valued NULL logic, all schedules within the deviation bound; oracle: per query, rows (as a key multiset) and error kind equal the same query run alone without batching. non-trivial = executions in which the driver saw fewer statements than queries"})
+		Rule: fmt.Sprintf("3 table contents (duplicates + NULLs, single row, empty) x all pairs and a grid of triples of %d queries", len(filters())) + " (Query/QueryRow; filters on id, nullable column, string column, int32 column, implicitnull column (zero value = NULL), []byte column (nil), two columns, empty, nil; each value in the Go representations int / int64 / int32 / *int64 / named string / nil / typed nil pointer; a second table) run concurrently under one batch.WithBatching context over the real sqlgen.DB and an in-memory SQL driver with three-valued NULL logic, all schedules within the deviation bound; oracle: per query, rows (as a key multiset) and error kind equal the same query run alone without batching. non-trivial = executions in which the driver saw fewer statements than queries"})
 }
